@@ -391,8 +391,8 @@ func runC01(c *Ctx) {
 	}
 	nsamples := 0
 	for i, sm := range c01Samples {
-		if !c.Thorough() && (i+int(c.Seed))%3 != 0 {
-			continue // quick: a third of them (one go build each)
+		if !c.Thorough() && (i+int(c.Seed))%4 != 0 {
+			continue // quick: a quarter of them (one go build each)
 		}
 		b, err := os.ReadFile(filepath.Join(c.Tree, "samples", sm.file))
 		if err != nil {
@@ -403,7 +403,7 @@ func runC01(c *Ctx) {
 		nsamples++
 	}
 	c.CountN("repo_samples_run", nsamples)
-	n := c.Pick(300, 9000)
+	n := c.Pick(240, 9000)
 	if v := os.Getenv("VH_N"); v != "" {
 		fmt.Sscan(v, &n)
 	}
